@@ -318,8 +318,23 @@ func runC07(c *fw.Ctx) {
 			sx := srcs[k.Rng.Intn(len(srcs))]
 			x := Shuffled(k.Rng, Unique(k.Rng, sx, 0.2, 2.5))
 			p := ref.Prog{{Op: "leaf", Shape: sx, Data: x.Data, Tracked: true}, {Op: "broadcast", In: []int{0}, Shape: dst}}
-			uses := 2 + k.Rng.Intn(2)
 			var parts []int
+			if k.Rng.Intn(3) == 0 { // the SAME Broadcast result at both operand positions of one operation (two shares from one consumer)
+				switch k.Rng.Intn(3) {
+				case 0:
+					dim := k.Rng.Intn(len(dst))
+					idx := make([]ref.Range, dim+1)
+					idx[dim] = ref.Range{From: dst[dim] / 2, To: dst[dim]/2 + dst[dim]} // a window over the seam between the two copies
+					p = append(p, ref.Instr{Op: "concat", In: []int{1, 1}, Dim: dim}, ref.Instr{Op: "slice", In: []int{2}, Index: idx})
+				case 1:
+					p = append(p, ref.Instr{Op: "patch", In: []int{1, 1}})
+				default:
+					p = append(p, ref.Instr{Op: "mul", In: []int{1, 1}})
+				}
+				parts = append(parts, len(p)-1)
+				k.Count("broadcast_results_used_twice_by_one_operation", 1)
+			}
+			uses := 2 + k.Rng.Intn(2)
 			for u := 0; u < uses; u++ {
 				switch k.Rng.Intn(4) {
 				case 0:
